@@ -6,6 +6,7 @@ mod docgen;
 mod c02;
 mod c03;
 mod c07;
+mod c11;
 
 use std::collections::HashMap;
 
@@ -51,6 +52,7 @@ fn main() {
         "c02" => c02::run(&args),
         "c03" => c03::run(&args),
         "c07" => c07::run(&args),
+        "c11" => c11::run(&args),
         other => {
             eprintln!("unknown command {other}");
             2
